@@ -7,7 +7,6 @@ class C15(L.LmmCheck):
     pid = 'C15'
     solvers = ['maxmin', 'fairbottleneck', 'bmf']
     my_monitor_prop = 'C15'
-    hang_is_violation = True
     rule = ('seeded histories of <= 60 LMM API modifications (variable_new/expand incl. repeated expand/'
             'update bound, penalty, capacity/variable_free) interleaved with solves, on <= 12 constraints '
             '(SHARED/FATPIPE/NONLINEAR/WIFI with capacity callbacks, concurrency limits -1 or 1-4) and <= 20 variables, '
